@@ -48,6 +48,14 @@ def rebalance_spec(draw):
     spec = {"p0": p0, "move": mv, "mult": mult, "integer": draw(st.booleans()), "capital": draw(st.sampled_from([1e6, 1e5, 1e7, 54321.0]))}
     prior_keys = draw(st.lists(st.sampled_from(tickers), min_size=0, max_size=nt, unique=True))
     spec["prior"] = draw(weights(prior_keys, gross_max=1.2))
+    if nt >= 2 and draw(st.integers(0, 5)) == 0:
+        # a dollar-neutral prior book: two legs of exactly opposite value (same price, move and multiplier), so that the strategy's cash
+        # equals its value although it holds positions
+        a_, b_ = tickers[0], tickers[1]
+        p0[b_], mv[b_], mult[b_] = p0[a_], mv[a_], mult[a_]
+        w_ = draw(st.sampled_from([0.25, 0.5, 0.4, 1.0]))
+        spec["prior"] = {a_: w_, b_: -w_}
+        spec["dollar_neutral"] = True
     with_sub = draw(st.integers(0, 2)) == 0
     if with_sub:
         sub_t = draw(st.lists(st.sampled_from(tickers), min_size=1, max_size=nt, unique=True))
@@ -148,6 +156,8 @@ def case_rebalance(ctx, spec):
     if abs((base - V) - (fees + bo)) > 1e-9 * base + 1e-6:
         raise Violation("Rebalance changed total value by %r but recorded costs are %r" % (V - base, fees + bo), signature="c06:value-vs-costs")
     labs = ["exact" if exact else ("integer" if spec["integer"] else "costs")]
+    if spec.get("dollar_neutral"):
+        labs.append("dollar_neutral_prior" + ("+cash" if spec["cash"] else ""))
     if spec["cash"]:
         labs.append("cash")
     prior_nonempty = any(v[1] not in (None, 0) for v in before.values())
